@@ -486,6 +486,9 @@ func cmdPoolCheck(a Args) {
 					}
 				}
 			}
+			if ndefer > 0 && nput > 0 {
+				bad = append(bad, fmt.Sprintf("%s (returned to the pool both by a deferred put and by an explicit put: it ends up in the pool twice)", where))
+			}
 			kind := "leak_no_put"
 			switch {
 			case ndefer > 0:
